@@ -83,7 +83,7 @@ def h_irrigation(ctx, cfg):
     if not gs:
         ctx.prove("C04,C13:no irrigation outside the growing season", approx(irr, 0, 0))
         return
-    ctx.prove("C13:seasonal total never exceeds MaxIrrSeason", cum2 <= maxseason + 1e-9)
+    ctx.prove("C04,C13:seasonal total never exceeds MaxIrrSeason (INV irr_cum <= MaxIrrSeason is preserved)", cum2 <= maxseason + 1e-9)
     ctx.prove("C13:single application <= MaxIrr", irr <= maxirr + 1e-12)
     # reference model written from the statement ---------------------------------------------------------------
     (wr, dr_zt, dr_rz, taw_zt, taw_rz, th_act, th_s, th_fc, th_wp, th_dry, th_aer) = rz["out"]
